@@ -2757,12 +2757,19 @@ void SoPlexBase<R>::clearLPReal()
    assert(_realLP != nullptr);
 
    _realLP->clear();
+   // clear() resets objective sense and offset of the LP; keep them in line with the parameter values
+   _realLP->changeSense(intParam(SoPlexBase<R>::OBJSENSE) == SoPlexBase<R>::OBJSENSE_MAXIMIZE ?
+                        SPxLPBase<R>::MAXIMIZE : SPxLPBase<R>::MINIMIZE);
+   _realLP->changeObjOffset(realParam(SoPlexBase<R>::OBJ_OFFSET));
    _hasBasis = false;
    _rationalLUSolver.clear();
 
    if(intParam(SoPlexBase<R>::SYNCMODE) == SYNCMODE_AUTO)
    {
       _rationalLP->clear();
+      _rationalLP->changeSense(intParam(SoPlexBase<R>::OBJSENSE) == SoPlexBase<R>::OBJSENSE_MAXIMIZE ?
+                               SPxLPRational::MAXIMIZE : SPxLPRational::MINIMIZE);
+      _rationalLP->changeObjOffset(realParam(SoPlexBase<R>::OBJ_OFFSET));
       _rowTypes.clear();
       _colTypes.clear();
    }
@@ -3686,6 +3693,10 @@ void SoPlexBase<R>::clearLPRational()
    assert(_rationalLP != nullptr);
 
    _rationalLP->clear();
+   // clear() resets objective sense and offset of the LP; keep them in line with the parameter values
+   _rationalLP->changeSense(intParam(SoPlexBase<R>::OBJSENSE) == SoPlexBase<R>::OBJSENSE_MAXIMIZE ?
+                            SPxLPRational::MAXIMIZE : SPxLPRational::MINIMIZE);
+   _rationalLP->changeObjOffset(realParam(SoPlexBase<R>::OBJ_OFFSET));
    _rationalLUSolver.clear();
    _rowTypes.clear();
    _colTypes.clear();
@@ -3693,6 +3704,9 @@ void SoPlexBase<R>::clearLPRational()
    if(intParam(SoPlexBase<R>::SYNCMODE) == SYNCMODE_AUTO)
    {
       _realLP->clear();
+      _realLP->changeSense(intParam(SoPlexBase<R>::OBJSENSE) == SoPlexBase<R>::OBJSENSE_MAXIMIZE ?
+                           SPxLPBase<R>::MAXIMIZE : SPxLPBase<R>::MINIMIZE);
+      _realLP->changeObjOffset(realParam(SoPlexBase<R>::OBJ_OFFSET));
       _hasBasis = false;
    }
 
